@@ -170,7 +170,7 @@ fn balanced(b: &BuiltObs) -> bool {
 // ------------------------------------------------------------------ C05
 
 pub fn eval_c05(sc: &Scenario, h: &History, _signed: &Signeds, out: &mut Outcome) {
-    let cx = Ctx { w: &sc.world, k: &sc.knobs };
+    let cx = Ctx { w: &sc.world, k: &sc.knobs, undeclared_ref_scripts: Default::default() };
     for b in &h.built {
         if !balanced(b) {
             out.count("c05.skipped_not_balanced", 1);
@@ -229,9 +229,52 @@ fn fee_request_before(sc: &Scenario, h: &History, upto: usize) -> (Option<u64>, 
     (min, exact)
 }
 
+/// reference-script UTxOs listed only through the size-less `add_reference_input`
+pub fn undeclared_ref_scripts(sc: &Scenario, h: &History, upto: usize) -> BTreeSet<(Vec<u8>, u64)> {
+    let mut plain: BTreeSet<usize> = BTreeSet::new();
+    let mut declared: BTreeSet<usize> = BTreeSet::new();
+    // a removal (or an old whole-collection setter) forgets the script sources declared before it
+    let last_of = |f: &dyn Fn(&Op) -> bool| -> usize { sc.ops.iter().enumerate().take(upto).filter(|(_, o)| f(o)).map(|(i, _)| i + 1).last().unwrap_or(0) };
+    let certs_from = last_of(&|o| matches!(o, Op::RemoveCerts | Op::SetCertsLegacy));
+    let wdrs_from = last_of(&|o| matches!(o, Op::RemoveWithdrawals | Op::SetWithdrawalsLegacy));
+    let mint_from = last_of(&|o| matches!(o, Op::RemoveMint));
+    for (i, op) in sc.ops.iter().enumerate() {
+        if i >= upto || !h.results[i].is_ok() {
+            continue;
+        }
+        match op {
+            Op::Cert(..) if i < certs_from => continue,
+            Op::Wdr(..) if i < wdrs_from => continue,
+            Op::Mint { .. } if i < mint_from => continue,
+            _ => {}
+        }
+        let wit = match op {
+            Op::RefIn(u, false) => {
+                plain.insert(*u);
+                None
+            }
+            Op::RefIn(u, true) => {
+                declared.insert(*u);
+                None
+            }
+            Op::InScript { wit, .. } | Op::InScriptThenRegular { wit, .. } => Some(wit),
+            Op::Cert(_, Some(w)) | Op::Wdr(_, _, Some(w)) | Op::Propose(_, Some(w)) => Some(w),
+            Op::Mint { wit, .. } => Some(wit),
+            Op::Vote { wit: Some(w), .. } => Some(w),
+            _ => None,
+        };
+        if let Some(w) = wit {
+            if let ScriptUse::Ref(u) = &w.how {
+                declared.insert(*u);
+            }
+        }
+    }
+    plain.difference(&declared).filter(|u| **u < sc.world.utxos.len()).map(|u| sc.world.outpoint(*u)).collect()
+}
+
 pub fn eval_c06(sc: &Scenario, h: &History, signed: &Signeds, out: &mut Outcome) {
-    let cx = Ctx { w: &sc.world, k: &sc.knobs };
     for (bi, b) in h.built.iter().enumerate() {
+        let cx = Ctx { w: &sc.world, k: &sc.knobs, undeclared_ref_scripts: undeclared_ref_scripts(sc, h, b.op) };
         if !b.full || b.balanced_at.is_none() {
             continue;
         }
@@ -543,6 +586,8 @@ fn profile_c07() -> Profile {
     p.whale = 350;
     p.boundary_outputs = 150;
     p.fine_value_limit = 350;
+    p.fine_cpb = 250;
+    p.tight = 450;
     p
 }
 
